@@ -22,15 +22,25 @@ type vhLock struct {
 	shared      int
 	aofAtUnlock int
 	snapAtUnlock string
+	onLock      func() // interference hook: runs before an exclusive acquisition is granted
+	noSnap      bool
 }
 
-func (l *vhLock) Lock()            { l.log += "L"; l.excl = true }
-func (l *vhLock) LockLowPriority() { l.log += "L"; l.excl = true }
+func (l *vhLock) Lock() {
+	if l.onLock != nil {
+		l.onLock()
+	}
+	l.log += "L"
+	l.excl = true
+}
+func (l *vhLock) LockLowPriority() { l.Lock() }
 func (l *vhLock) Unlock() {
 	l.log += "U"
 	l.excl = false
 	l.aofAtUnlock = len(l.s.aofbuf)
-	l.snapAtUnlock = vhSnapshot(l.s)
+	if !l.noSnap {
+		l.snapAtUnlock = vhSnapshot(l.s)
+	}
 }
 func (l *vhLock) RLock()   { l.log += "R"; l.shared++ }
 func (l *vhLock) RUnlock() { l.log += "r"; l.shared-- }
